@@ -97,10 +97,11 @@ type scn struct {
 	directs  map[string]string // extra clauses evaluated by a script on the implementation alone: clause -> "" (ok) | what failed
 	errGate  string            // the first ErrorCallback(io.EOF) (connection lost) blocks until this gate opens
 	errGated bool
-	gateSess bool   // the service runs on a gateSession
-	running  bool   // a Start returned true and no Stop returned true since
-	offGate  string // the first OfflineCallback blocks until this gate opens
-	envSlow  bool   // a timeout expired although the peer of that attempt answers promptly: the machine was too slow
+	gateSess bool          // the service runs on a gateSession
+	ctmo     time.Duration // ConnectTimeout of this scenario (0: tmoLong)
+	running  bool          // a Start returned true and no Stop returned true since
+	offGate  string        // the first OfflineCallback blocks until this gate opens
+	envSlow  bool          // a timeout expired although the peer of that attempt answers promptly: the machine was too slow
 	discSent bool
 
 	svc     *client.Service
@@ -406,6 +407,9 @@ func (s *scn) setup() {
 	sv.MinReconnectDelay = 1 * time.Millisecond
 	sv.MaxReconnectDelay = 4 * time.Millisecond
 	sv.ConnectTimeout = tmoLong
+	if s.ctmo > 0 {
+		sv.ConnectTimeout = s.ctmo
+	}
 	sv.ResubscribeTimeout = tmoLong
 	sv.DisconnectTimeout = 20 * time.Millisecond
 	sv.QueueTimeout = s.qtmo
